@@ -20,9 +20,29 @@ from . import sq
 ROOT = os.path.join(VERIF, ".cache", "rec")
 
 
+_HARNESS = None
+
+
+def harness_digest() -> str:
+    """Digest of the recorders themselves: a recording made by an older recorder is never reused."""
+    global _HARNESS
+    if _HARNESS is None:
+        hsh = hashlib.sha256()
+        base = os.path.dirname(os.path.abspath(__file__))
+        for root, dirs, files in os.walk(base):
+            dirs.sort()
+            for f in sorted(files):
+                if f.endswith(".py"):
+                    with open(os.path.join(root, f), "rb") as fh:
+                        hsh.update(f.encode() + fh.read())
+        _HARNESS = hsh.hexdigest()[:16]
+    return _HARNESS
+
+
 def cached(name: str, parts: Any, build: Callable[[], Any]) -> Any:
     if os.environ.get("VF_NOCACHE"):
         return build()
+    parts = [parts, harness_digest()]
     tree = sq.src_digest()
     d = os.path.join(ROOT, tree)
     os.makedirs(d, exist_ok=True)
